@@ -2,11 +2,19 @@ import PV.Common.Proto
 import PV.C13.Model
 import PV.C13.Spec
 import PV.C13.Domain
+import PV.C13.Fold
+import PV.C13.Overrides
+import PV.Gen.C12Schema
 /-! Driver for C13: answers the same request lines as `harness/src/bin/pvh_c13.rs` with the model.
 
   `locseq <d|r> <text> <op>…`        ops `l<off>` locate, `o<off>` locate_only, `e<off>` locate_error
   `trace <d|r> <mode> <src> <op>…`   ops `l<off>=<r>,<c>` … as recorded from the real fold; they are
                                      replayed through the model and every result compared
+  `fold <d|r> <mode> <src> <tree>`    the fold-order model on the tree the real parser produced (attached by
+                                     tools/props/c13.py in the encoding of the C12 driver):
+                                     `ops=` the call history `locHistory` (cut after the first call that
+                                     panics), `fwd=` Forward of it, `ordered=` SrcOrdered of the tree,
+                                     `lin=`/`nodes=`/`rnd=` the located trees `foldLocated` of both locators
   `d` = build with debug assertions and overflow checks, `r` = without.
 -/
 open PV PV.C13
@@ -63,7 +71,78 @@ def replayGo (dbg : Bool) (src : List Nat) (fwd : Bool) : St → Nat → List (O
     if some (showRC r) == want then replayGo dbg src fwd st' (i + 1) rest
     else s!"diff@{i}:{showOp op}={showRC r}"
 
+/-! #### the generic tree attached to `fold` requests (same encoding as `Drv/C12.lean`)
+      tree ::= N <kind id> <a..b | -> <n> tree^n | L <n> tree^n | S tree | O | A <hex of leaf text> -/
+
+def parseRange (s : String) : Option (Option C12.Range) :=
+  if s == "-" then some none else
+  match s.splitOn ".." with
+  | [a, b] => match a.toNat?, b.toNat? with
+    | some a, some b => some (some (a, b))
+    | _, _ => none
+  | _ => none
+
+mutual
+partial def parseTree : List String → Option (C12.Tree × List String)
+  | "O" :: rest => some (.none, rest)
+  | "S" :: rest => match parseTree rest with
+    | some (t, rest) => some (.some t, rest)
+    | none => none
+  | "A" :: h :: rest => match unhex h with
+    | some bs => some (.leaf bs, rest)
+    | none => none
+  | "L" :: n :: rest => match n.toNat? with
+    | some n => match parseTrees n rest [] with
+      | some (ts, rest) => some (.list ts, rest)
+      | none => none
+    | none => none
+  | "N" :: k :: r :: n :: rest => match k.toNat?, parseRange r, n.toNat? with
+    | some k, some r, some n => match parseTrees n rest [] with
+      | some (ts, rest) => some (.node k r ts, rest)
+      | none => none
+    | _, _, _ => none
+  | _ => none
+partial def parseTrees : Nat → List String → List C12.Tree → Option (List C12.Tree × List String)
+  | 0, rest, acc => some (acc.reverse, rest)
+  | n + 1, rest, acc => match parseTree rest with
+    | some (t, rest) => parseTrees n rest (t :: acc)
+    | none => none
+end
+
+/-- the history up to and including the first call whose result is `none` (a panic ends the fold) -/
+def cutAtPanic : List Op → List (Option (Nat × Nat)) → List Op
+  | op :: ops, some _ :: rs => op :: cutAtPanic ops rs
+  | op :: _, none :: _ => [op]
+  | _, _ => []
+
+def showLRange (r : LRange) : String := s!"{r.1.1},{r.1.2}-{r.2.1},{r.2.2}"
+
+def orDash (xs : List String) : String := if xs.isEmpty then "-" else joinSep ";" xs
+
+def handleFold (dbg : Bool) (src : List Nat) (t : C12.Tree) : String :=
+  if !(decide (C12.Conforms C12.Gen.schema t)) then "nonconforming-tree" else
+  match locHistory realCfg t with
+  | none => "shape-panic"
+  | some hist =>
+    let seen := cutAtPanic hist (run dbg src hist)
+    let fwd := decide (Forward src (initCursor src) seen)
+    let ordered := decide (SrcOrdered realCfg src t)
+    let plain := C12.rangesOf t
+    let lin := foldLocated realCfg (.linear dbg) src t
+    let rnd := foldLocated realCfg .random src t
+    let nodes := match lin with
+      | some lt => orDash (List.zipWith (fun (p : C12.Range) l => s!"{p.1}-{p.2}:{showLRange l}") plain lt.ranges)
+      | none => "-"
+    let rnds := match rnd with
+      | some lt => orDash (lt.ranges.map showLRange)
+      | none => "panic"
+    s!"ops={orDash (seen.map showOp)} fwd={fwd} ordered={ordered} lin={if lin.isSome then "ok" else "panic"} nodes={nodes} rnd={rnds}"
+
 def handle : List String → String
+  | "fold" :: f :: _mode :: t :: tree =>
+    match flavour f, unhex t, parseTree tree with
+    | some dbg, some src, some (tr, []) => handleFold dbg src tr
+    | _, _, _ => "bad-request"
   | "locseq" :: f :: t :: ops =>
     match flavour f, unhex t, parseOps ops with
     | some dbg, some src, some ops => handleLocseq dbg src (ops.map (·.1))
